@@ -22,11 +22,11 @@ import (
 )
 
 type cfg struct {
-	name               string
-	start, end, per    int
-	publics            int
-	subs               int
-	bulk               bool
+	name            string
+	start, end, per int
+	publics         int
+	subs            int
+	bulk            bool
 }
 
 type block struct {
@@ -35,12 +35,12 @@ type block struct {
 }
 
 type sys struct {
-	c     cfg
-	m     *nat.Manager
-	lg    *nat.Logger
-	buf   *bytes.Buffer
-	ref   map[int]block // reference: live holder -> block (from API observations)
-	viols []explore.Viol
+	c                cfg
+	m                *nat.Manager
+	lg               *nat.Logger
+	buf              *bytes.Buffer
+	ref              map[int]block // reference: live holder -> block (from API observations)
+	viols            []explore.Viol
 	nAlloc, nDealloc int // successful alloc/dealloc operations that must be logged
 }
 
@@ -168,12 +168,12 @@ func (s *sys) Check() []explore.Viol {
 	s.lg.Flush()
 	s.lg.FlushPortBlocks()
 	type rec struct {
-		EventType string `json:"event_type"`
-		PrivateIP string `json:"private_ip"`
-		PublicIP  string `json:"public_ip"`
-		PortStart int    `json:"port_start"`
-		PortEnd   int    `json:"port_end"`
-		PublicPort int   `json:"public_port"`
+		EventType  string `json:"event_type"`
+		PrivateIP  string `json:"private_ip"`
+		PublicIP   string `json:"public_ip"`
+		PortStart  int    `json:"port_start"`
+		PortEnd    int    `json:"port_end"`
+		PublicPort int    `json:"public_port"`
 	}
 	live := map[string]block{} // private ip -> block, reconstructed from the log only
 	assigns, releases := 0, 0
